@@ -135,6 +135,8 @@ theorem step_ub {c : Cfg} (hc : c.remGuardsNull = true) (s : St) (op : Op) : (st
   | markAbort marks => rfl
   | nulldel a => rfl
   | delNull => exact gcRemNull_ub hc s
+  | typed b t => rfl
+  | raises a => rfl
 
 theorem run_ub {c : Cfg} (hc : c.remGuardsNull = true) : ∀ (ops : List Op) (s : St), (run c s ops).ub = s.ub := by
   intro ops
